@@ -981,12 +981,6 @@ def run(ctx):
     fontbuild_cross(ctx, shim, ctx.rng("fontbuild"), ctx.budget(150, 3000))
     d17_probe(ctx, shim)
     slow_probe(ctx, shim, model)
-    # vlib.finish() reports a broken proof / correspondence on its own line only when no failing input was found;
-    # the genuine defects above always produce failing inputs, so say it here explicitly
-    if ctx.broken and any(v[2] for v in ctx.violations):
-        names = [str(b.get("module") or b.get("stream")) for b in ctx.broken]
-        ctx.violation("proof or correspondence no longer checks: " + ", ".join(names),
-                      {"stage": "prove/correspond", "broken": ctx.broken}, found_input=False)
 
 
 def replay(ctx, rp):
